@@ -1,5 +1,6 @@
 mod mathgen;
 mod colors;
+mod filegen;
 mod mathops;
 mod textgen;
 mod rnggen;
@@ -23,6 +24,7 @@ fn main() {
             rnggen::emit(seed, n, len, nraw)
         }
         "text" => textgen::emit(seed, n, a.get(4).map(|s| s.as_str()).unwrap_or("")),
+        "file" => filegen::emit(seed, n, a.get(4).map(|s| s.as_str()).unwrap_or("/tmp/vh_files"), a.get(5).and_then(|s| s.parse().ok()).unwrap_or(300)),
         "mathone" => {
             let op: i64 = a[2].parse().unwrap();
             let args: Vec<f64> = a[3..].iter().map(|s| s.parse().unwrap()).collect();
